@@ -36,6 +36,7 @@ operators), what `History.update` builds (`history_entries_fresh`, `history_inde
 -/
 import DeapModel.Lemmas.C02Ops
 import DeapModel.Lemmas.C02History
+import DeapModel.Lemmas.C02Gen   -- translator tie: lemmas of GenEq/C02.lean.tmpl (elaborated per run by the check)
 
 namespace C02
 open Variation
